@@ -5,8 +5,6 @@ package server
 // real PublicKeyCallback (files in ./cache/<user>.authorized_keys) to show that a grant never influences a later one.
 
 import (
-	"sync"
-	"time"
 	"crypto/ecdsa"
 	"crypto/ed25519"
 	"crypto/elliptic"
@@ -17,9 +15,12 @@ import (
 	"net"
 	"os"
 	"path/filepath"
+	"runtime"
 	"sort"
 	"strings"
+	"sync"
 	"testing"
+	"time"
 
 	user "github.com/mimecast/dtail/internal/user/server"
 
@@ -264,25 +265,34 @@ func TestC09Concurrent(t *testing.T) {
 	var bads []string
 	evals := 0
 	var wg sync.WaitGroup
-	for g := 0; g < 9; g++ {
-		wg.Add(1)
-		go func(g int) {
-			defer wg.Done()
-			r := mrand.New(mrand.NewSource(int64(g) + vSeed()))
-			for i := 0; i < rounds; i++ {
-				u := users[r.Intn(3)]
-				k := []string{"A", "B", "C"}[r.Intn(3)]
-				perm, err := PublicKeyCallback(c09Meta{u, fmt.Sprintf("127.0.0.1:%d", 5000+g)}, keys[k])
-				granted := err == nil && perm != nil
-				mu.Lock()
-				evals++
-				if granted != (own[u] == k) && len(bads) < 20 {
-					bads = append(bads, fmt.Sprintf("user %s offered key %s while other logins were in progress: granted=%v, the user's file lists key %s only", u, k, granted, own[u]))
+	// two phases: 9 goroutines on all processors, then 24 goroutines on 2 processors (time-sliced, so a login is
+	// preempted in the middle of the callback and another one runs on the same P in between)
+	for phase := 0; phase < 2; phase++ {
+		ng := 9
+		if phase == 1 {
+			ng = 24
+			defer runtime.GOMAXPROCS(runtime.GOMAXPROCS(2))
+		}
+		for g := 0; g < ng; g++ {
+			wg.Add(1)
+			go func(g int) {
+				defer wg.Done()
+				r := mrand.New(mrand.NewSource(int64(g) + vSeed()))
+				for i := 0; i < rounds; i++ {
+					u := users[r.Intn(3)]
+					k := []string{"A", "B", "C"}[r.Intn(3)]
+					perm, err := PublicKeyCallback(c09Meta{u, fmt.Sprintf("127.0.0.1:%d", 5000+g)}, keys[k])
+					granted := err == nil && perm != nil
+					mu.Lock()
+					evals++
+					if granted != (own[u] == k) && len(bads) < 20 {
+						bads = append(bads, fmt.Sprintf("user %s offered key %s while other logins were in progress: granted=%v, the user's file lists key %s only", u, k, granted, own[u]))
+					}
+					mu.Unlock()
 				}
-				mu.Unlock()
-			}
-		}(g)
+			}(g)
+		}
+		wg.Wait()
 	}
-	wg.Wait()
 	vWriteJSON(t, "VERIF_OUT", map[string]interface{}{"evaluations": evals, "bad": bads})
 }
